@@ -197,6 +197,10 @@ type rewriter struct {
 	edits []edit
 	needs bool
 	stats map[string]int
+	// fine: insert statement-level scheduling points (protocol packages only)
+	fine   bool
+	fineFn string // Fine (files with synchronisation of their own) or FineAll
+	noFine int // > 0 inside the body of a range over a map that may iterate in native order
 }
 
 func (r *rewriter) off(p token.Pos) int { return r.file.Offset(p) }
@@ -211,6 +215,27 @@ func (r *rewriter) site(kind string, p token.Pos) string {
 
 func rewrite(p *packages.Package, f *ast.File, path string, stats map[string]int) {
 	r := &rewriter{fset: p.Fset, file: p.Fset.File(f.Pos()), info: p.TypesInfo, base: filepath.Base(path), stats: stats}
+	r.fine = p.PkgPath == modPath || p.PkgPath == modPath+"/dbkit"
+	// files that use locks, channels, goroutines or contexts themselves are the protocol files: their
+	// statement-level scheduling points are active at level 1, the others only at level 2
+	r.fineFn = "FineAll"
+	ast.Inspect(f, func(n ast.Node) bool {
+		switch x := n.(type) {
+		case *ast.SelectStmt, *ast.SendStmt, *ast.GoStmt:
+			r.fineFn = "Fine"
+		case *ast.UnaryExpr:
+			if x.Op == token.ARROW {
+				r.fineFn = "Fine"
+			}
+		case *ast.SelectorExpr:
+			if sel := p.TypesInfo.Selections[x]; sel != nil {
+				if named, ok := derefNamed(sel.Recv()); ok && named.Obj().Pkg() != nil && named.Obj().Pkg().Path() == "sync" {
+					r.fineFn = "Fine"
+				}
+			}
+		}
+		return r.fineFn != "Fine"
+	})
 
 	// imports
 	for _, imp := range f.Imports {
@@ -274,8 +299,35 @@ func (r *rewriter) walkDecls(f *ast.File) {
 // inserted before/after a statement.
 func (r *rewriter) block(list []ast.Stmt) {
 	for _, st := range list {
+		if r.fine && r.noFine == 0 {
+			r.insert(st.Pos(), "verifsimrt."+r.fineFn+"("+r.site("stmt", st.Pos())+"); ")
+			r.needs = true
+			r.stats[strings.ToLower(r.fineFn)]++
+		}
 		r.stmt(st, true)
 	}
+}
+
+func derefNamed(t types.Type) (*types.Named, bool) {
+	if p, ok := t.(*types.Pointer); ok {
+		t = p.Elem()
+	}
+	n, ok := t.(*types.Named)
+	return n, ok
+}
+
+// ptrKeyed reports whether t is a map whose keys cannot be ordered canonically
+// (pointers, interfaces, channels).
+func ptrKeyed(t types.Type) bool {
+	m, ok := t.Underlying().(*types.Map)
+	if !ok {
+		return false
+	}
+	switch m.Key().Underlying().(type) {
+	case *types.Pointer, *types.Interface, *types.Chan:
+		return true
+	}
+	return false
 }
 
 func isRecv(e ast.Expr) bool {
@@ -313,6 +365,19 @@ func (r *rewriter) stmt(st ast.Stmt, inList bool) {
 		if inList && len(s.Rhs) == 1 && isRecv(s.Rhs[0]) {
 			r.around(s, "recv")
 		}
+		// m[k] = v with a pointer-keyed map: register the key so that ranges over m can be seeded
+		if r.fine && inList && len(s.Lhs) == 1 && s.Tok == token.ASSIGN {
+			if ix, ok := s.Lhs[0].(*ast.IndexExpr); ok {
+				if t := r.info.TypeOf(ix.X); t != nil && ptrKeyed(t) {
+					switch ix.Index.(type) {
+					case *ast.Ident, *ast.SelectorExpr:
+						r.insert(s.End(), "; verifsimrt.NoteKey("+types.ExprString(ix.Index)+")")
+						r.needs = true
+						r.stats["notekeys"]++
+					}
+				}
+			}
+		}
 	case *ast.BlockStmt:
 		r.block(s.List)
 	case *ast.IfStmt:
@@ -335,7 +400,17 @@ func (r *rewriter) stmt(st ast.Stmt, inList bool) {
 				r.stats["mapranges"]++
 			}
 		}
+		native := false
+		if t := r.info.TypeOf(s.X); t != nil && ptrKeyed(t) {
+			native = true
+		}
+		if native {
+			r.noFine++
+		}
 		r.block(s.Body.List)
+		if native {
+			r.noFine--
+		}
 	case *ast.SwitchStmt:
 		r.stmt(s.Init, false)
 		r.exprs(s.Tag)
